@@ -2,11 +2,13 @@ module verif/harness
 
 go 1.23.0
 
-require github.com/vmware/go-ipfix v0.0.0
+require (
+	github.com/pion/dtls/v2 v2.2.12
+	github.com/vmware/go-ipfix v0.0.0
+)
 
 require (
 	github.com/go-logr/logr v1.4.2 // indirect
-	github.com/pion/dtls/v2 v2.2.12 // indirect
 	github.com/pion/logging v0.2.2 // indirect
 	github.com/pion/transport/v2 v2.2.10 // indirect
 	golang.org/x/crypto v0.27.0 // indirect
